@@ -1,6 +1,6 @@
 SPECIFICATION Spec
 CONSTANTS
-  CPs = {0, 1, 2, 3, 127, 32766, 32767, 32768, 65533, 65534, 65536, 65537, 1114111}
+  CPs = {0, 1, 2, 3, 127, 32766, 32767, 32768, 55295, 57344, 65533, 65534, 65536, 65537, 1114111}
   GIDs = {1, 2, 3, 32767, 32768, 65534}
   MaxPairs = 3
   Runs <- RunsQ
